@@ -120,6 +120,10 @@ func c05Gen(seed uint64, i int) *c05Case {
 			cs.with = append(cs.with, gen.WithItem{Kind: "str", S: "/"}, gen.WithItem{Kind: "var", S: name})
 		}
 	}
+	if i%3 == 2 {
+		// the same amount clause on both commands: built-ins such as matchNumber must stay those of the match
+		c.Amount = gen.RandomAmount(rng)
+	}
 	cs.find = gen.RenderProgram(p)
 	rp := *p
 	rc := *c
@@ -196,7 +200,7 @@ func C05(r *drv.Run) {
 	if !quick(r) {
 		n = 80000
 	}
-	r.Rule = "replace commands whose `with` list mixes literal strings, captures whose value differs per match, every built-in (value, matchNumber, startOffset, endOffset, lineNumber, columnNumber, totalMatches, filename), undefined names, named-loop (map valued) names and 0..2 generated transforms reading match, matchLength and captures; texts derived from the body with >= 2 matches where possible. Oracle: (a) the replace run equals the find run of the same body in every field but Replacement; (b) each Replacement equals the concatenation computed from the find-run's match by the harness (transforms through the process-language reference interpreter). Non-trivial = a match whose expected replacement is non-empty and that carries >= 1 variable; distinct by (program, text)."
+	r.Rule = "replace commands whose `with` list mixes literal strings, captures whose value differs per match, every built-in (value, matchNumber, startOffset, endOffset, lineNumber, columnNumber, totalMatches, filename), undefined names, named-loop (map valued) names and 0..2 generated transforms reading match, matchLength and captures; texts derived from the body with >= 2 matches where possible; a third of the cases under an amount clause (skip / take / top / last). Oracle: (a) the replace run equals the find run of the same body in every field but Replacement; (b) each Replacement equals the concatenation computed from the find-run's match by the harness (transforms through the process-language reference interpreter). Non-trivial = a match whose expected replacement is non-empty and that carries >= 1 variable; distinct by (program, text)."
 	r.Assumptions = []string{
 		"an absent Replacement and the empty string are the same replacement (a `with` list that names nothing)",
 		"transforms whose evaluation divides by zero are not judged (known finding K1); matchNumber is not used inside transforms",
